@@ -415,13 +415,16 @@ def theta_lattice(env, tier, method, n, r, npar):
             ret.append(('%g*atom%d' % (s, k), s * g))
     if method == 'polar':
         s1 = [0.1, 1.0] if tier == 'quick' else [1e-3, 0.1, 1.0]
-        for bn, M in frame_bases(n, r):
+        for i, (bn, M) in enumerate(frame_bases(n, r)):
             b = pack_frame(M)
             assert b.shape[0] == npar
             ret.append((bn, b))
-            for s in s1:
-                for k, g in enumerate(atoms):
-                    ret.append(('%s+%g*atom%d' % (bn, s, k), b + s * g))
+            if tier == 'quick':      # quick: one perturbed point per (frame, scale), atoms alternating; thorough: the full product
+                pert = [(s, (i + j) % G) for j, s in enumerate(s1)]
+            else:
+                pert = [(s, k) for s in s1 for k in range(G)]
+            for s, k in pert:
+                ret.append(('%s+%g*atom%d' % (bn, s, k), b + s * atoms[k]))
     else:
         ret.append(('zero', np.zeros(npar)))
         e0 = np.zeros(npar)
@@ -431,18 +434,43 @@ def theta_lattice(env, tier, method, n, r, npar):
     return ret
 
 
+def chart_kappa(method, theta, n, r):
+    """condition number of the frame that the chart orthonormalises (only used to scale tolerances / to skip ill-conditioned lattice points).
+    polar: cond(M)^2 enters M (M^dagger M)^(-1/2); choleskyL: cond of [unit lower triangular ; block] (layout of the docstring); QR (Householder)
+    is orthogonal to eps for any frame; euler / so-exp / so-cayley are products of rotations, an exponential or one linear solve with 1-A, whose
+    error grows with the norm of the generator: 1+|theta|."""
+    npar = theta.shape[0]
+    if method == 'polar':
+        M = theta[:npar // 2].reshape(n, r) + 1j * theta[npar // 2:].reshape(n, r)
+    elif method == 'choleskyL':
+        N1 = (r * (r - 1)) // 2
+        L = np.eye(r, dtype=np.complex128)
+        il = np.tril_indices(r, -1)
+        L[il] = theta[:N1] + 1j * theta[N1:2 * N1]
+        rest = theta[2 * N1:].reshape(2, n - r, r)
+        M = np.concatenate([L, rest[0] + 1j * rest[1]], axis=0)
+    elif method == 'qr':
+        return 1.0
+    else:
+        return 1.0 + float(np.linalg.norm(theta))
+    sv = np.linalg.svd(M, compute_uv=False)
+    return float(sv[0] / sv[-1]) if sv[-1] > 0 else np.inf
+
+
 QUBIT = [np.array(v, dtype=np.complex128) / np.linalg.norm(v) for v in ([1, 0], [0, 1], [1, 1], [1, -1], [1, 1j], [1, -1j])]
 
 
-def sphere_lattice(env, tier, n):
+def sphere_lattice(env, tier, n, f32=False):
     """product-state parameters of the GME model: list of (label, [theta_A (n,4), theta_B (n,4)]) in the quotient layout [Re ; Im]"""
     def pk(vs):
         vs = np.stack(vs)
         return np.concatenate([vs.real, vs.imag], axis=1)
-    ret = [('all|00>', [pk([QUBIT[0]] * n), pk([QUBIT[0]] * n)]),
-           ('cycle', [pk([QUBIT[a % 6] for a in range(n)]), pk([QUBIT[(2 * a + 1) % 6] for a in range(n)])]),
-           ('cycle2', [3.0 * pk([QUBIT[(a + 4) % 6] for a in range(n)]), 0.01 * pk([QUBIT[(5 * a + 2) % 6] for a in range(n)])])]
-    for k in range(1 if tier == 'quick' else 3):
+    ret = [('cycle', [pk([QUBIT[a % 6] for a in range(n)]), pk([QUBIT[(2 * a + 1) % 6] for a in range(n)])])]
+    if not (f32 and tier == 'quick'):
+        ret.append(('all|00>', [pk([QUBIT[0]] * n), pk([QUBIT[0]] * n)]))
+    if tier == 'thorough':
+        ret.append(('cycle2', [3.0 * pk([QUBIT[(a + 4) % 6] for a in range(n)]), 0.01 * pk([QUBIT[(5 * a + 2) % 6] for a in range(n)])]))
+    for k in range(1 if (tier == 'quick' or f32) else 2):
         rng = env.rng('C13', 'sphere', n, k)
         ret.append(('atom%d' % k, [rng.normal(size=(n, 4)), rng.normal(size=(n, 4))]))
     return ret
@@ -480,8 +508,10 @@ def run_model_case(nq, out, env, case):
     le_cap = min(1 - np.trace(rdmA @ rdmA).real, 1 - np.trace(rdmB @ rdmB).real)
     # lock-step tolerance: both sides use the same X and sqrt(rho); only the evaluation differs: 1e3 eps, except the concurrence model whose
     # members carry sqrt(2(p^2 - tr rdm^2)) with an absolute error 16 eps p^2 under the root: sum_a p_a sqrt(16 eps) = 6e-8 -> with c: 1e-6
-    tol_lock = 1e-6 if name == 'CONC' else 1e3 * eps
+    tol_lock0 = 1e-6 if name == 'CONC' else 1e3 * eps
     n_list = list(range(1, 9)) if r_eff == 1 else list(range(r_eff, 9))
+    if env.tier == 'quick':          # quick: the two smallest admissible sizes, one in the middle, the largest; thorough: every size rank..8
+        n_list = sorted(set(n_list) & {1, max(2, r_eff), max(2, r_eff) + 1, 6, 8})
     for n in n_list:
         cfgd = dict(model=mname, state=label, rank=rank, num_term=n)
         out.trans()
@@ -525,19 +555,19 @@ def run_model_case(nq, out, env, case):
         stief = getattr(model, st)
         npar = int(stief.theta.numel())
         lat = theta_lattice(env, env.tier, method, n, Sq.shape[1], npar)
-        sph = sphere_lattice(env, env.tier, n) if name == 'GME' else [('-', None)]
+        sph = sphere_lattice(env, env.tier, n, f32) if name == 'GME' else [('-', None)]
         for (tl, theta), (sl, sth) in itertools.product(lat, sph):
             det = dict(cfgd, theta_label=tl, theta=theta, rho=rho)
             if sth is not None:
                 det.update(sphere_label=sl, theta_A=sth[0], theta_B=sth[1])
-            kappa = 1.0
-            if method == 'polar':
-                M = theta[:npar // 2].reshape(n, -1) + 1j * theta[npar // 2:].reshape(n, -1)
-                svM = np.linalg.svd(M, compute_uv=False)
-                kappa = float(svM[0] / svM[-1]) if svM[-1] > 0 else np.inf
-                if kappa > (10 if f32 else 1e3):
-                    out.count('skipped_ill_conditioned')
-                    continue
+            kappa = chart_kappa(method, theta, n, Sq.shape[1])
+            if kappa > (10 if f32 else 1e3):
+                out.count('skipped_ill_conditioned')
+                continue
+            # EOF / concurrence losses are sums of per-member terms.  The linear-entropy and GME losses are written as 1 - sum_a(...), which equals
+            # the ensemble average only if sum_a p_a = tr(W X^T X^* W^dagger) = 1: the orthonormality defect of X (eps kappa^2, see chart_kappa)
+            # enters those two losses once, un-cancelled  ->  c eps kappa^2 with the same c = 1e3
+            tol_lock = tol_lock0 * (max(1.0, kappa ** 2) if name in ('LE', 'GME') else 1.0)
             out.state()
             out.trans()
             try:
@@ -632,16 +662,17 @@ def build_cases(tier, seed):
     for i in range(N_COMP):
         cases.append({'kind': 'search', 'init': i, 'depth': depth})
     info['search'] = {'depth': depth,
-                      'level1': 'all %d components x weights %s, all 15 non-trivial local unitaries at every state of depth <= 1' % (N_COMP, WEIGHTS),
-                      'level2': 'quick: every 3rd component with w=1/2; thorough: all components with w in {1/2, 1e-6}, local unitaries on the w=1/2 states of every 4th component',
-                      'level3': 'thorough only: below (w1=1/2, w2=1/2) states, every 5th component with w=1/2'}
+                      'level1': 'all %d components x weights %s; local unitaries: all 15 non-trivial {1,H,S,g}x{1,H,S,g} at depth 0 (thorough: also depth 1), quick depth 1: {Hx1, 1xS, g0xg1, HxS, Sxg1, g0xH}' % (N_COMP, WEIGHTS),
+                      'level2': 'quick: below the w in {1/2, 1e-6} states of level 1, every 6th component with w=1/2; thorough: below every level-1 state, all components with w in {1/2, 1e-6}, local unitaries on the (1/2,1/2) states of every 4th component',
+                      'level3': 'thorough only: below (w1=1/2, w2=1/2) states, every 10th component with w=1/2'}
     ns = N_MODEL_STATES[tier]
     for s in range(ns):
         for cfg in range(len(MODEL_CONFIGS)):
-            for rank in (None, 4, 3, 2, 1):
+            for rank in ((None, 3, 2, 1) if tier == 'quick' else (None, 4, 3, 2, 1)):
                 cases.append({'kind': 'model', 'state': s, 'cfg': cfg, 'rank': rank})
-    info['models'] = {'states': ns, 'configs': [cfg_name(i) for i in range(len(MODEL_CONFIGS))], 'rank_options': [None, 4, 3, 2, 1], 'num_term': 'max(rank,1)..8 (1 only for rank 1; rejected by Stiefel)',
-                      'theta_lattice': 'polar: {s*atom_k} + {frame, frame + s*atom_k : frame in eye_first, eye_last, fourier, hadamard}; other charts: {s*atom_k, zero, e0, -ones}; GME: x 4 (6) product-state patterns',
+    info['models'] = {'states': ns, 'configs': [cfg_name(i) for i in range(len(MODEL_CONFIGS))], 'rank_options': [None, 3, 2, 1] if tier == 'quick' else [None, 4, 3, 2, 1],
+                      'num_term': ('{1 (rank 1 only; rejected by Stiefel), max(rank,2), max(rank,2)+1, 6, 8}' if tier == 'quick' else 'every size rank..8 (1 only for rank 1; rejected by Stiefel)'),
+                      'theta_lattice': 'polar: {s*atom_k} + {frame, frame + s*atom_k : frame in eye_first, eye_last, fourier, hadamard} (quick: one atom per (frame, scale)); other charts: {s*atom_k, zero, e0, -ones}; GME: x product-state patterns {cycle, all|00>, atom} (float32 quick: cycle, atom; thorough adds cycle2 and a second atom)',
                       'scales': [0.1, 1, 10] if tier == 'quick' else [1e-3, 0.1, 1, 10, 100], 'atoms': 2 if tier == 'quick' else 6}
     info['tolerances'] = {'TOL_C': TOL_C, 'TOL_CPURE': TOL_CPURE, 'TOL_EPURE': TOL_EPURE, 'TOL_PLAIN': TOL_PLAIN, 'TOL_GREL': TOL_GREL, 'TOL_NEG': TOL_NEG}
     info['exhaustive'] = True
@@ -743,7 +774,7 @@ def run_case(case, out, env):
             R = Ref(ens)
             c, e, g, n = check_closed(numqi, out, R, 'mix', label)
             if lu:
-                check_lu(numqi, out, R, LU, label)
+                check_lu(numqi, out, R, lu, label)
             out.outcome((None if c is None else round(c, 7), None if n is None else round(n, 7), R.rank), nontrivial=bool(R.rank >= 2 and R.C > TOL_C))
             out.count('states_rank%d' % R.rank)
             if R.C > TOL_C:
@@ -753,24 +784,25 @@ def run_case(case, out, env):
             return True
         i0 = case['init']
         l0 = 'init=%s' % comps[i0][0]
-        visit(comps[i0][1], l0, True)
-        lvl2 = list(range(nC)) if thorough else list(range(0, nC, 3))
+        visit(comps[i0][1], l0, LU)
+        lvl2 = list(range(nC)) if thorough else list(range(0, nC, 6))
         w2 = [0.5, 1e-6] if thorough else [0.5]
+        LU1 = LU if thorough else [LU[i] for i in (3, 1, 14, 5, 10, 12)]   # quick, depth 1: Hx1, 1xS, g0xg1, HxS, Sxg1, g0xH
         for j in range(nC):
             for w in WEIGHTS:
                 e1 = ens_mix(comps[i0][1], comps[j][1], w)
                 l1 = '%s;mix(%s,%g)' % (l0, comps[j][0], w)
-                new = visit(e1, l1, True)
-                if not (new and case['depth'] >= 2):
+                new = visit(e1, l1, LU1)
+                if not (new and case['depth'] >= 2) or not (thorough or w != 0.1):
                     continue
                 for j2 in lvl2:
                     for wb in w2:
                         e2 = ens_mix(e1, comps[j2][1], wb)
                         l2 = '%s;mix(%s,%g)' % (l1, comps[j2][0], wb)
-                        new2 = visit(e2, l2, thorough and wb == 0.5 and w == 0.5 and j2 % 4 == 0)
+                        new2 = visit(e2, l2, LU if (thorough and wb == 0.5 and w == 0.5 and j2 % 4 == 0) else None)
                         if new2 and case['depth'] >= 3 and w == 0.5 and wb == 0.5:
-                            for j3 in range(0, nC, 5):
-                                visit(ens_mix(e2, comps[j3][1], 0.5), '%s;mix(%s,0.5)' % (l2, comps[j3][0]), False)
+                            for j3 in range(0, nC, 10):
+                                visit(ens_mix(e2, comps[j3][1], 0.5), '%s;mix(%s,0.5)' % (l2, comps[j3][0]), None)
         out.trace()
         out.sample = {'kind': 'search', 'init': comps[i0][0], 'depth': case['depth'], 'distinct_states': len(seen)}
     elif kind == 'model':
